@@ -5,6 +5,7 @@ import (
 	"bytes"
 	"context"
 	"encoding/binary"
+	"errors"
 	"fmt"
 	"io"
 	"os"
@@ -851,12 +852,24 @@ func (idx *Index) readDiskBucket(indexOffset types.Position, fileNum uint32) (Re
 	if _, err = file.ReadAt(sizeBuf, int64(indexOffset-4)); err != nil {
 		return nil, err
 	}
-	data := make([]byte, binary.LittleEndian.Uint32(sizeBuf))
+	size := binary.LittleEndian.Uint32(sizeBuf)
+	if size&deletedBit != 0 {
+		// GC has reclaimed this record list. The size, with the deleted
+		// bit, must not be used to allocate a buffer.
+		return nil, errDeletedRecordList
+	}
+	data := make([]byte, size)
 	if _, err = file.ReadAt(data, int64(indexOffset)); err != nil {
 		return nil, err
 	}
 	return NewRecordList(data), nil
 }
+
+// maxStaleReads is the number of times Get looks at a bucket again when the
+// record list it referred to could not be read.
+const maxStaleReads = 8
+
+var errDeletedRecordList = errors.New("record list is deleted")
 
 // Get the file offset in the primary storage of a key.
 func (idx *Index) Get(key []byte) (types.Block, bool, error) {
@@ -866,22 +879,34 @@ func (idx *Index) Get(key []byte) (types.Block, bool, error) {
 		return types.Block{}, false, err
 	}
 
-	// Here we just need an RLock since there will not be changes over buckets.
-	// So, do not use getRecordsFromBucket and instead only wrap this line of
-	// code in the RLock.
-	idx.bucketLk.RLock()
-	cached, indexOffset, fileNum, err := idx.readBucketInfo(bucket)
-	idx.bucketLk.RUnlock()
-	vhook.AtV("index.get.after-unlock", fileNum)
-	if err != nil {
-		return types.Block{}, false, fmt.Errorf("error reading bucket: %w", err)
-	}
 	var records RecordList
-	if cached != nil {
-		records = NewRecordListRaw(cached)
-	} else {
-		records, err = idx.readDiskBucket(indexOffset, fileNum)
+	for attempt := 0; ; attempt++ {
+		// Here we just need an RLock since there will not be changes over
+		// buckets. So, do not use getRecordsFromBucket and instead only wrap
+		// this line of code in the RLock.
+		idx.bucketLk.RLock()
+		cached, indexOffset, fileNum, err := idx.readBucketInfo(bucket)
+		idx.bucketLk.RUnlock()
+		vhook.AtV("index.get.after-unlock", fileNum)
 		if err != nil {
+			return types.Block{}, false, fmt.Errorf("error reading bucket: %w", err)
+		}
+		if cached != nil {
+			records = NewRecordListRaw(cached)
+			break
+		}
+		records, err = idx.readDiskBucket(indexOffset, fileNum)
+		if err == nil {
+			break
+		}
+		// The record list is read after the lock is released. If a flush
+		// has replaced it in the meantime, then GC may already have marked
+		// it deleted, truncated it or removed its file. Look again, unless
+		// the bucket still refers to the same record list.
+		idx.bucketLk.RLock()
+		curCached, curOffset, curFileNum, _ := idx.readBucketInfo(bucket)
+		idx.bucketLk.RUnlock()
+		if attempt == maxStaleReads || (curCached == nil && curOffset == indexOffset && curFileNum == fileNum) {
 			return types.Block{}, false, fmt.Errorf("error reading index records from disk: %w", err)
 		}
 	}
